@@ -155,8 +155,11 @@ def gen_box_case(r, maxlen, ctx=None):
             ops.append("unshrink")
         elif x < 91:
             ops.append("adddelta " + " ".join(str(r.range(-1, 1)) for _ in range(nv)))
-        elif x < 94:
+        elif x < 93:
             ops.append(f"label {r.below(n)}")
+        elif x < 95:
+            # BiasSolver::performBiasUpdate with an arbitrary bias step (one dyadic rational per class)
+            ops.append("biasupd " + " ".join(f"{r.range(-3, 3)} {r.choice([0, 1, 2, 7])}" for _ in range(c)))
         elif x < 97:
             ops.append("select1")
         else:
